@@ -298,3 +298,7 @@ def r6(ctx):
 def r7(ctx):
     from . import c06
     ctx.sub(c06.r2, only=("empty-guard:",))   # which list is averaged is C06's business
+    # the information criterion is built from the stored (finite) covariance and MRF of each cluster - not from a covariance
+    # re-estimated at scoring time, which is NaN for a one-member cluster
+    from . import c16
+    ctx.sub(c16.r1, only=("likelihood:trace",))
